@@ -941,13 +941,11 @@ def abstract(h, side):
                 elif last_r is not None:
                     toks[last_r] = toks[last_r][:-1] + c
             continue
+        was_delivering = delivering
         if t in ("recv", "poll") or (t == "write" and e.get("handler") != consts.HANDLE_DEL) or t.startswith("api_"):
-            was_delivering, delivering = delivering, False
-        else:
-            was_delivering = delivering
+            delivering = False          # the next transport call / API call of this side: the delivery is over (or nested)
         if t == "write":
             msg = e["msg"]
-            delivering = was_delivering     # (consulted below; cleared after this entry)
             if msg == consts.MSG_REQUEST:
                 if e.get("handler") == consts.HANDLE_CLOSE:
                     flush_reply()
@@ -963,7 +961,7 @@ def abstract(h, side):
                 ref = "T" if e.get("ref") else "F"
                 if e["own_closed"]:
                     toks.append("is%d:%s" % (s, ref))
-                elif not e["ok"] and delivering and e.get("handler") != consts.HANDLE_DEL:
+                elif not e["ok"] and was_delivering and e.get("handler") != consts.HANDLE_DEL:
                     toks.append("fn%d" % s)       # made while a response was being delivered: met while serving
                     last_r = len(toks) - 1
                 elif not e["ok"]:
@@ -2005,6 +2003,8 @@ def oracle(h):
         must1 = False
         reason = None
         awaiting = False
+        delivering_o = False
+        pend_o = None
         for e in ev:
             if e["t"] == "snapshot" and e["n"] == 1:
                 if awaiting:
@@ -2017,7 +2017,8 @@ def oracle(h):
                 if awaiting and e["what"] != "close":
                     must1, reason, awaiting = True, reason or "a response could not be sent", False
                 if must1 and not e["closed"]:
-                    sig = "C11:reply-send-failure-leaves-open" if "response" in reason else "C11:not-closed"
+                    sig = ("C11:eof-while-delivering-response-leaves-open" if "being delivered" in reason else
+                           "C11:reply-send-failure-leaves-open" if "response" in reason else "C11:not-closed")
                     return ("side %s: %s, but closed == False when control returned to the application (hook runs %d)"
                             % (side, reason, e["hooks"]), sig)
                 if e["closed"] and e["hooks"] != 1 and e["what"] != "close-inner":
@@ -2038,13 +2039,26 @@ def oracle(h):
                 must1, reason = True, "EOF / I/O error while receiving (%s)" % t
             elif t == "write" and e["msg"] != consts.MSG_REQUEST and not e["ok"]:
                 must1, reason = True, "failure while a response was being written"
+            elif t == "write" and e["msg"] == consts.MSG_REQUEST and not e["ok"] and not e["own_closed"] and delivering_o \
+                    and e.get("handler") not in (consts.HANDLE_DEL, consts.HANDLE_CLOSE):
+                must1, reason = True, "a request made while a response was being delivered (inside serve()) could not be written"
+            if t in ("recv", "poll", "write") or t.startswith("api_"):
+                if not (t == "write" and e.get("handler") == consts.HANDLE_DEL):
+                    delivering_o = False
+            if t == "recvbody":
+                delivering_o = bool(pend_o is not None and pend_o.get("msg") in (consts.MSG_REPLY, consts.MSG_EXCEPTION)
+                                    and not (e.get("eof") or e.get("faulted")) and pend_o.get("cut") is None)
+                pend_o = None
+            if t == "recv":
+                pend_o = e
             if t == "finish":
                 awaiting = True
             elif t == "write" and e["msg"] != consts.MSG_REQUEST:
                 awaiting = False
         s1, s2 = h.snap[1][side], h.snap[2][side]
         if must1 and not s1["closed"]:
-            sig = ("C11:reply-send-failure-leaves-open" if "response" in reason else
+            sig = ("C11:eof-while-delivering-response-leaves-open" if "being delivered" in reason else
+                   "C11:reply-send-failure-leaves-open" if "response" in reason else
                    "C11:serve-all-exit-leaves-open" if "serve_all" in reason else "C11:not-closed")
             return ("side %s: %s, but closed == False after the workload (hook runs %d)" % (side, reason, s1["hooks"]), sig)
         for n, s in ((1, s1), (2, s2)):
